@@ -53,6 +53,10 @@ CHECKS = {
    text="For every model of C06 x floating/constraint scenario (couplings; mass+width with Gaussian constraint; mass with a fixed and a tied coupling; width with two constraints) x batch sizes x points (+ two simultaneous data sets sharing a constraint): nll_grad, nll_grad_hessian and grad_hessp (unit, ones and ramp direction vectors) against automatic differentiation (nested tapes) of the stand-alone value the object reports; the three bound-transformation wrappers for two-sided, lower, upper, custom-expression and mixed bounds on an exact quadratic and on the real NLL against the chain rule with y', y'' from 40-digit mpmath differentiation.",
    note="Trusted base: TensorFlow reverse-mode AD of the value path; mpmath differentiation. Interior points; cached integrals with fixed line shapes only.",
    technique="bounded-exhaustive enumeration of (model, scenario, batch, direction) with an AD-of-value derivative oracle"),
+ "C08": dict(level="exploration", ref="4-C08",
+   text="Explicit exploration of fit histories on one ConfigLoader session with a tiny weighted model: every minimiser name (BFGS, CG, L-BFGS-B, Newton-CG, trust-ncg, trust-krylov, trust-exact, the three Hessian-vector-product variants, iminuit) x constraint sets (none, fixed, tied, two-sided bound inactive/active, lower, upper, Gaussian, Gaussian+bound on one parameter) x start points x iteration limits as single fits (quick: every name on 3 sets, 4 representative names on all 9), and ordered pairs of fits in one session (quick 12 pairs, thorough all 121 x 3 sets). After every fit: result vs model state bit-for-bit, reported minimum = recomputed NLL, not above the start, fixed bitwise, tied equal, bounds, save_as / save_params -> set_params(file) into a freshly built model reproduces parameters and NLL. An exception out of fit is a violation.",
+   note="Tiny model (3-5 free parameters); convergence quality is not judged; bound slack 1e-9 relative.",
+   technique="explicit-state exploration of fit histories on the implementation with invariants after every transition"),
 }
 
 NA_REASON = "check not built yet in this round (planned in DESIGN.md section 4)"
